@@ -15,6 +15,7 @@ and all approximate comparisons (exact rational arithmetic on the dyadic outputs
 Translator: tools/translate_statics.py -> Gen/Statics.lean (static objects of include/tapkee; `no_hidden_state`)."""
 import os
 import re
+import threading
 from fractions import Fraction
 
 import vlib
@@ -390,6 +391,11 @@ def judge_pairs(ctx, binary, pairs, shrink=True):
             # order, legitimately; the two graphs (hence connectivity, geodesics, weights) need not correspond
             v["trivial"] = "knn-boundary-tie"
             continue
+        if m in FEATURE_SPACE and len(set(p.a["X"])) < len(p.a["X"][0]) + 2:
+            # fewer distinct samples than feature dimensions + 2: the D x D problem is rank deficient, its extreme
+            # eigenvectors may be orthogonal to the data and the embedding is rounding noise around zero
+            v["trivial"] = "feature-problem-rank-deficient"
+            continue
         if sa != "ok" or sb != "ok":
             if sa.startswith("harness") or sb.startswith("harness"):
                 v["fail"] = ("harness", "harness error: %s / %s" % (sa, sb))
@@ -755,6 +761,138 @@ def perm_without(perm, x):
     return [p for p in perm if p != x]
 
 
+# ----------------------------------------------------------------------------- neighbour search on larger clouds
+def knn_line(nm, k, sh, X, us=0):
+    return "knn nm=%s k=%d sh=%d us=%d metric=euclid seed=7 X=%s" % (nm, k, sh, us, pts_text(X))
+
+
+def knn_variants(r, X, sh):
+    """(kind, X', sh', perm, e, description) for the relations checked on the neighbour search"""
+    n = len(X)
+    perm = r.shuffle(list(range(n)))
+    e = r.choice([-3, -1, 1, 2, 4])
+    nsh = sh - e
+    Xs = X
+    if nsh < 0:
+        Xs = [tuple(v * (2 ** (-nsh)) for v in p) for p in X]
+        nsh = 0
+    Xr, desc, _ = gen_rigid(r, X, True)
+    return [("perm", apply_perm(X, perm), sh, perm, 0, "perm"),
+            ("scale", Xs, nsh, None, e, "scale=2^%d" % e),
+            ("rigid", Xr, sh, None, 0, desc)]
+
+
+def knn_prepare(r, count):
+    """clouds of the size real data has (N = 100..300) and the harness lines for: the search under test, brute
+    force, and the transformed clouds"""
+    clouds, lines = [], []
+    for _ in range(count):
+        n = r.range(100, 300)
+        D = r.choice([2, 2, 3])
+        k = r.range(5, 20)
+        sh = r.choice([0, 2])
+        shape = r.choice([0, 0, 0, 1, 2])
+        if shape == 0:
+            X = [tuple(25 * r.range(-400, 400) for _ in range(D)) for _ in range(n)]
+        elif shape == 1:      # anisotropic box
+            X = [tuple(25 * (r.range(-400, 400) // (1 + 3 * c)) for c in range(D)) for _ in range(n)]
+        else:                 # a few blobs of different density
+            cs = [tuple(25 * r.range(-300, 300) for _ in range(D)) for _ in range(r.range(2, 5))]
+            X = []
+            for i in range(n):
+                c = cs[i % len(cs)]
+                rad = 10 * (1 + (i % len(cs)) * 6)
+                X.append(tuple(c[t] + 25 * r.range(-rad, rad) for t in range(D)))
+        nm = "vptree" if r.chance(1, 10) else "covertree"
+        vs = knn_variants(r, X, sh)
+        if not r.chance(1, 4):
+            vs = vs[:2]       # the rigid-motion variant for every fourth cloud only (time)
+        first = len(lines)
+        lines.append(knn_line(nm, k, sh, X))
+        lines.append(knn_line("brute", k, sh, X))
+        for kind, Xv, shv, perm, e, desc in vs:
+            lines.append(knn_line(nm, k, shv, Xv, us=e))
+        clouds.append((X, sh, k, nm, vs, first))
+    return clouds, lines
+
+
+class KnnJob(threading.Thread):
+    """builds the small k-NN harness (standard flags) and runs the prepared lines while the main thread works on
+    the embed pairs; judged afterwards in the main thread"""
+
+    def __init__(self, ctx, lines):
+        threading.Thread.__init__(self)
+        self.ctx, self.lines = ctx, lines
+        self.binary, self.log, self.outs, self.error = None, "", None, None
+
+    def run(self):
+        try:
+            self.binary, self.log = self.ctx.build_harness("c12_knn.cpp")
+            if self.binary:
+                self.outs = self.ctx.run_impl_cases(self.binary, self.lines, env=ENV)
+        except Exception as ex:          # reported by the main thread
+            self.error = repr(ex)
+
+
+def knn_judge(ctx, job, clouds, meta_binary):
+    """the sorted neighbour-distance lists are a function of the pairwise distances alone: permuted by a
+    permutation, unchanged by a rigid motion, scaled by a scale, identical for the three search methods; compared
+    exactly (per-sample hash of the bit patterns of the sorted, exactly un-scaled distances)"""
+    if job.error or not job.binary or job.outs is None or len(job.outs) != len(job.lines):
+        ctx.broken("harness-build:knn", "harness c12_knn.cpp", "k-NN harness unavailable: %s %s" % (job.error, (job.log or "")[-800:]))
+        return
+    lines, outs = job.lines, job.outs
+    for X, sh, k, nm, vs, first in clouds:
+        base, brute = outs[first], outs[first + 1]
+        ctx.cov["traces_validated_against_impl"] += 2 + len(vs)
+        ctx.stat("knn-clouds:" + nm)
+        ctx.count(lines[first], True)
+        if base.startswith(("abort", "harness")) or brute.startswith(("abort", "harness")):
+            ctx.stat("trivial:knn-abort")
+            continue
+        n = len(X)
+        rows = base.split(";")
+        checks = [("method", "brute force", brute.split(";"), None, lines[first + 1])]
+        for t, (kind, Xv, shv, perm, e, desc) in enumerate(vs):
+            vo = outs[first + 2 + t]
+            if vo.startswith(("abort", "harness")):
+                ctx.stat("trivial:knn-abort")
+                continue
+            checks.append((kind, desc, vo.split(";"), perm, lines[first + 2 + t]))
+        for kind, desc, vrows, perm, vl in checks:
+            ctx.stat("cmp-exact:knn-" + kind)
+            bad = None
+            if len(vrows) != len(rows):
+                bad = 0
+            else:
+                for i in range(n):
+                    if vrows[i] != (rows[perm[i]] if perm is not None else rows[i]):
+                        bad = i
+                        break
+            if bad is None:
+                continue
+            sig = "%s:knn/%s:neighbour-distances" % (kind, nm)
+            ctx.stat("violations-seen:" + sig)
+            if sig in ctx.c12_reported:
+                continue
+            ctx.c12_reported.add(sig)
+            what = {"perm": "permuting the samples does not permute the neighbour lists",
+                    "scale": "scaling the data by a power of two does not scale the neighbour distances",
+                    "rigid": "a rigid motion of the data changes the neighbour distances",
+                    "method": "the neighbour distances differ from those of the brute-force search"}[kind]
+            # the actual distances of the offending sample, from the verbose mode of the main harness
+            full = ctx.run_impl_cases(meta_binary, [lines[first], vl], env=ENV)
+            ia = perm[bad] if perm is not None else bad
+            da = full[0].split(";")[ia] if len(full) > 0 and ";" in full[0] else "?"
+            db = full[1].split(";")[bad] if len(full) > 1 and ";" in full[1] else "?"
+            ctx.fail(sig, "the k-NN lists are not a function of the pairwise distances — %s (%s search, N=%d, k=%d, %s): "
+                     "sample %d of the first run / %d of the second" % (what, nm, n, k, desc, ia, bad),
+                     case="knnpair kind=%s%s\n  A: %s\n  B: %s" % (
+                         kind, (" perm=" + ",".join(map(str, perm))) if perm is not None else "", lines[first], vl),
+                     detail={"sorted neighbour distances, first run": da[:1500],
+                             "sorted neighbour distances, second run (scaled data: multiply by 2^-us)": db[:1500]})
+
+
 # ----------------------------------------------------------------------------- histories
 def gen_any_call(r, quick, observed=False):
     m = r.choice(DET + RANDOMISED) if not observed else (r.choice(DET) if r.chance(4, 5) else r.choice(["lmds", "lisomap", "spe", "rp"]))
@@ -862,9 +1000,14 @@ def translate(ctx):
 # ----------------------------------------------------------------------------- main
 def correspond(ctx):
     ctx.c12_reported = set()
+    # the neighbour-search stage has its own small harness: built and run in the background
+    knn_clouds, knn_lines = knn_prepare(ctx.rng.fork(), 130 if ctx.tier == "quick" else 1500)
+    knn_job = KnnJob(ctx, knn_lines)
+    knn_job.start()
     binary, log = ctx.build_harness("c12_meta.cpp", flags=FLAGS)
     if not binary:
         ctx.broken("harness-build", "harness c12_meta.cpp", "harness does not compile against the repository: " + log[-1500:])
+        knn_job.join()
         return
     ctx.log("harness ready")
     r = ctx.rng
@@ -895,7 +1038,7 @@ def correspond(ctx):
     ctx.log("stage / exact-mode model checks done")
 
     # 3. metamorphic pairs
-    rounds = 12 if quick else 150
+    rounds = 9 if quick else 150
     sizes = [8, 16, 16, 32] if quick else [8, 12, 16, 20, 32, 32, 48]
     for rnd in range(rounds):
         pairs = []
@@ -919,8 +1062,13 @@ def correspond(ctx):
         account(ctx, binary, verdicts, "round%d" % rnd)
         ctx.log("pairs round %d: %d pairs" % (rnd, len(pairs)))
 
+    # 3b. the neighbour search alone on larger clouds (ran in the background)
+    knn_job.join()
+    knn_judge(ctx, knn_job, knn_clouds, binary)
+    ctx.log("k-NN relations done")
+
     # 4. histories
-    histories(ctx, binary, r.fork(), 120 if quick else 2500, quick)
+    histories(ctx, binary, r.fork(), 90 if quick else 2500, quick)
     ctx.log("histories done")
 
     ctx.cov["rule"] = (
@@ -966,6 +1114,22 @@ def run_corpus_case(ctx, binary, text):
         t = [0] if "+t" in desc or desc.startswith("t") else None
         p = Pair(f.get("kind", "perm"), a, b, "corpus", perm=perm, cexp=cexp, desc=desc, t=t)
         account(ctx, binary, judge_pairs(ctx, binary, [p]), "corpus")
+    elif lines[0].startswith("knnpair"):
+        f = dict(t.split("=", 1) for t in lines[0].split()[1:] if "=" in t)
+        la = [l[3:] for l in lines if l.startswith("A: ")]
+        lb = [l[3:] for l in lines if l.startswith("B: ")]
+        kb, _ = ctx.build_harness("c12_knn.cpp")
+        if la and lb and kb:
+            outs = ctx.run_impl_cases(kb, [la[0], lb[0]], env=ENV)
+            ctx.count(text, True)
+            perm = [int(x) for x in f["perm"].split(",")] if "perm" in f else None
+            ra, rb = outs[0].split(";"), outs[1].split(";")
+            good = len(ra) == len(rb) and all((ra[perm[i]] if perm else ra[i]) == rb[i] for i in range(len(rb)))
+            if not good:
+                sig = "%s:knn/corpus:neighbour-distances" % f.get("kind", "perm")
+                if sig not in ctx.c12_reported:
+                    ctx.c12_reported.add(sig)
+                    ctx.fail(sig, "the k-NN lists are not a function of the pairwise distances (stored case)", case=text)
     elif lines[0].startswith("connpair"):
         f = dict(t.split("=", 1) for t in lines[0].split()[1:] if "=" in t)
         perm = [int(x) for x in f["perm"].split(",")]
